@@ -814,6 +814,26 @@ def _check_subscript(ctx, m, arm, p) -> None:
     if arm is None:
         return
     key = f"{MOD}|Expression._eval|arm-Subscript|slice-fields"
+    # an evaluated bound must never be used as a truth value: `eval(part) or None` / `eval(part) if eval(part) else ..` turns the
+    # legitimate bounds 0 and False into "absent" (x[:0] would return the whole tuple)
+    def has_eval(e):
+        return any(isinstance(c, ast.Call) and self_attr(c.func) == "_eval" for c in ast.walk(e))
+    for n in ast.walk(arm):
+        bad = None
+        if isinstance(n, ast.BoolOp) and any(has_eval(v) for v in n.values):
+            bad = n
+        elif isinstance(n, ast.IfExp) and has_eval(n.test):
+            bad = n
+        elif isinstance(n, ast.If) and n is not arm and has_eval(n.test):
+            bad = n
+        if bad is not None:
+            k2 = f"{MOD}|Expression._eval|arm-Subscript|evaluated-bound-used-as-truth-value"
+            ctx.obligation("C20e", k2, False, f"{ctx.relpath(m.path)}:{bad.lineno}")
+            ctx.violation("C20e", k2, m.path, bad.lineno,
+                          f"`{norm(bad)[:70]}` uses the *value* of an evaluated index or slice bound as a truth value: a bound that evaluates to 0 (or "
+                          f"False) is replaced as if it were absent, so `x[:0]` is the whole tuple here and `()` in Python; whether a bound is "
+                          f"present is a property of the syntax tree (`sl.upper is None`), not of its value", norm(bad)[:100])
+            return
     binds = {}
     for n in ast.walk(arm):
         if isinstance(n, ast.Assign) and isinstance(n.targets[0], ast.Name):
@@ -830,3 +850,7 @@ def _check_subscript(ctx, m, arm, p) -> None:
             if not ok:
                 ctx.violation("C20e", key, m.path, n.lineno,
                               f"slice() receives {fields}; Python's x[a:b:c] is slice(lower, upper, step)", norm(n))
+            return
+    if any(isinstance(n, ast.Attribute) and n.attr == "Slice" for n in ast.walk(arm)):
+        raise AnalysisError("C20e: the Subscript arm handles ast.Slice but no `slice(lower, upper, step)` call with three plain arguments "
+                            "was found (shape unreadable, undecided)")
